@@ -563,6 +563,52 @@ class Discharger(object):
         ta, tb = self.subst_cuts(ta), self.subst_cuts(tb)
         return self.close_terms(pc, ta, tb, Fraction(tol))
 
+    def uf_axioms(self, asserts):
+        """erfc: range [0,2], erfc(x) <= 1 for x >= 0, erfc(-x) = 2 - erfc(x), decreasing; erf: odd, range [-1,1];
+        igamc: range [0,1] (assumption: its accuracy is property C06, not verified); cabs >= 0"""
+        apps = {}
+        for a in asserts:
+            if isinstance(a, z3.ExprRef):
+                for x in self.all_uf_apps(a):
+                    apps.setdefault(x.get_id(), x)
+        ax = []
+        byname = {}
+        for x in apps.values():
+            byname.setdefault(x.decl().name(), []).append(x)
+        for x in byname.get('erfc', []):
+            ax += [x >= 0, x <= 2, z3.Implies(x.arg(0) >= 0, x <= 1), z3.Implies(x.arg(0) <= 0, x >= 1)]
+        es = byname.get('erfc', [])
+        for i in range(len(es)):
+            for j in range(i + 1, len(es)):
+                a, b = es[i], es[j]
+                ax += [z3.Implies(a.arg(0) == -b.arg(0), a == 2 - b), z3.Implies(a.arg(0) <= b.arg(0), a >= b),
+                       z3.Implies(a.arg(0) >= b.arg(0), a <= b)]
+        for x in byname.get('erf', []):
+            ax += [x >= -1, x <= 1]
+        for x in byname.get('igamc', []):
+            ax += [x >= 0, x <= 1]
+        for x in byname.get('cabs', []):
+            ax += [x >= 0]
+        return ax
+
+    def all_uf_apps(self, t):
+        names = set(self.ex.fc.ufs)
+        out = []
+        seen = set()
+        stack = [t]
+        while stack:
+            x = stack.pop()
+            i = x.get_id()
+            if i in seen:
+                continue
+            seen.add(i)
+            if z3.is_bv(x):
+                continue
+            if z3.is_app(x) and x.decl().kind() == z3.Z3_OP_UNINTERPRETED and x.decl().name() in names and x.num_args() > 0:
+                out.append(x)
+            stack.extend(x.children())
+        return out
+
     # ------------------------------------------------------------ driver
     def discharge(self, obl):
         t0 = time.time()
@@ -608,6 +654,8 @@ class Discharger(object):
                 rv, iv = cv[c]
                 asserts.append(rv == z3.ToReal(z3.BV2Int(tobv(iv, 64), True)))
             asserts += self.ex.fc.side
+        # axioms of the uninterpreted library functions, instantiated on the applications that occur
+        asserts = asserts + self.uf_axioms(asserts)
         # first try with every library-function application abstracted by a fresh variable (identical applications share
         # one variable): unsat of the abstraction implies unsat of the original
         if self.ex.fc.ufs:
@@ -624,6 +672,33 @@ class Discharger(object):
                     return Result(obl, 'unsat', 'uf-abstraction', None, time.time() - t0, self.stats['queries'] - q0)
         r, m = self.check(asserts, want_model=True)
         return Result(obl, str(r), '', m, time.time() - t0, self.stats['queries'] - q0)
+
+
+def zero_divisor_candidates(ex, d, pc, limit=4):
+    """inputs for which a float divisor of the executed code is zero (the real-arithmetic model is silent there:
+    IEEE gives Inf or NaN): solver-found witnesses that are replayed natively as candidates"""
+    out = []
+    cv = ex.fc.cutvars
+    for div in ex.fdivs[:16]:
+        cuts = d.cuts_in(div)
+        cons = [div == 0] + d.cut_ranges(div) + [z3.IsInt(cv[c][0]) for c in cuts]
+        r, m = d.check(cons, timeout=10000, want_model=True)
+        if r != z3.sat:
+            continue
+        bvc = list(pc)
+        for c in cuts:
+            rv, iv = cv[c]
+            val = m.eval(rv, model_completion=True)
+            try:
+                bvc.append(tobv(iv, 64) == z3.BitVecVal(int(val.as_fraction()), 64))
+            except Exception:
+                pass
+        r2, m2 = d.check(bvc, timeout=20000, want_model=True)
+        if r2 == z3.sat:
+            out.append(m2)
+        if len(out) >= limit:
+            break
+    return out
 
 
 def model_record(ex, model, harness, params):
